@@ -741,6 +741,9 @@ fn res_bool(r: anyhow::Result<bool>) -> Value {
 }
 
 pub fn handle_sem(req: &Value) -> Value {
+    if req["sem"].as_str() == Some("watch") {
+        return crate::c14::handle_watch(req);
+    }
     let env: Env = match serde_json::from_value(req["env"].clone()) {
         Ok(e) => e,
         Err(e) => return json!({"error": e.to_string()}),
@@ -748,6 +751,9 @@ pub fn handle_sem(req: &Value) -> Value {
     let defs = named_schemas(&env);
     let refs: Vec<&NamedSchema> = defs.iter().collect();
     let kind = req["sem"].as_str().unwrap_or("");
+    if kind == "watch" {
+        return crate::c14::handle_watch(req);
+    }
     match kind {
         "subtype" => {
             let a: D = serde_json::from_value(req["a"].clone()).unwrap();
